@@ -108,6 +108,8 @@ func (language *Language) CompilerPasses() compiler.Passes {
 		&compiler.DisjunctionWithNullToOptional{},
 		&compiler.DisjunctionOfConstantsToEnum{},
 		&compiler.FlattenDisjunctions{},
+		// flattening can leave `T | null` behind
+		&compiler.DisjunctionWithNullToOptional{},
 		&compiler.DisjunctionInferMapping{},
 		&compiler.RenameNumericEnumValues{},
 	}
